@@ -8,6 +8,8 @@ Init0 == [run |-> 0, skip |-> FALSE, errs |-> <<>>,
           sent |-> {},           \* QoS>0 publishes completely transmitted in this session life, unresolved
           retx |-> {},           \* of those, the ones to retransmit on the current (resumed) connection
           seen |-> {},           \* operations already transmitted on this connection
+          owner |-> EmptyMap,    \* packet id -> QoS>0 publish it was sent with (this session life)
+          recd |-> {},           \* packet ids a PUBREC arrived for on this connection (a PUBREL for one of them is an answer)
           lastFresh |-> 0, lastRetx |-> 0, freshStarted |-> FALSE]
 
 Apply(m, e) ==
@@ -15,16 +17,25 @@ Apply(m, e) ==
     ELSE IF m.skip THEN m
     ELSE CASE e.ev = "Tx" /\ e.partial = 0 /\ e.op # 0 /\ e.type \in {"PUBLISH", "SUBSCRIBE", "UNSUBSCRIBE"} /\ e.op \notin m.seen ->
                   LET track == IF e.type = "PUBLISH" /\ e.qos > 0 THEN m.sent \cup {e.op} ELSE m.sent
+                      mo == [m EXCEPT !.owner = IF e.type = "PUBLISH" /\ e.qos > 0 THEN Put(@, e.pid, e.op) ELSE @]
                   IN IF e.op \in m.retx THEN
                          IF m.freshStarted THEN Breach(m, e, "retx-not-first")
                          ELSE IF e.op <= m.lastRetx THEN Breach(m, e, "retx-order")
-                         ELSE [m EXCEPT !.seen = @ \cup {e.op}, !.lastRetx = e.op, !.sent = track]
+                         ELSE [mo EXCEPT !.seen = @ \cup {e.op}, !.lastRetx = e.op, !.sent = track]
                      ELSE IF e.op <= m.lastFresh THEN Breach(m, e, "order")
-                     ELSE [m EXCEPT !.seen = @ \cup {e.op}, !.lastFresh = e.op, !.freshStarted = TRUE, !.sent = track]
+                     ELSE [mo EXCEPT !.seen = @ \cup {e.op}, !.lastFresh = e.op, !.freshStarted = TRUE, !.sent = track]
+           \* a QoS 2 publish whose PUBREC arrived on an earlier connection is retransmitted as its PUBREL: the same order applies
+           [] e.ev = "Tx" /\ e.partial = 0 /\ e.type = "PUBREL" /\ Has(m.owner, e.pid) /\ e.pid \notin m.recd
+                /\ m.owner[e.pid] \in m.retx /\ m.owner[e.pid] \notin m.seen ->
+                  LET op == m.owner[e.pid] IN
+                  IF m.freshStarted THEN Breach(m, e, "retx-not-first")
+                  ELSE IF op <= m.lastRetx THEN Breach(m, e, "retx-order")
+                  ELSE [m EXCEPT !.seen = @ \cup {op}, !.lastRetx = op]
+           [] e.ev = "Rx" /\ e.type = "PUBREC" -> [m EXCEPT !.recd = @ \cup {e.pid}]
            [] e.ev = "Complete" -> [m EXCEPT !.sent = @ \ {e.op}, !.retx = @ \ {e.op}]
            [] e.ev = "Rx" /\ e.type = "CONNACK" /\ e.result = "ok" ->
-                  IF e.sp = 1 THEN [m EXCEPT !.retx = m.sent] ELSE [m EXCEPT !.retx = {}, !.sent = {}]
-           [] e.ev \in {"Open", "Close"} -> [m EXCEPT !.seen = {}, !.retx = {}, !.lastFresh = 0, !.lastRetx = 0, !.freshStarted = FALSE]
-           [] e.ev = "Reset" -> [m EXCEPT !.sent = {}, !.retx = {}, !.seen = {}, !.lastFresh = 0, !.lastRetx = 0, !.freshStarted = FALSE]
+                  IF e.sp = 1 THEN [m EXCEPT !.retx = m.sent] ELSE [m EXCEPT !.retx = {}, !.sent = {}, !.owner = EmptyMap]
+           [] e.ev \in {"Open", "Close"} -> [m EXCEPT !.seen = {}, !.recd = {}, !.retx = {}, !.lastFresh = 0, !.lastRetx = 0, !.freshStarted = FALSE]
+           [] e.ev = "Reset" -> [m EXCEPT !.sent = {}, !.retx = {}, !.seen = {}, !.recd = {}, !.owner = EmptyMap, !.lastFresh = 0, !.lastRetx = 0, !.freshStarted = FALSE]
            [] OTHER -> m
 =============================================================================
